@@ -27,7 +27,10 @@ TRUSTED = [
     "accumulation into preferences/multiplicity, counters), factorise_instance, recompute_cardinality_param",
     "relative_size_truncators are floats: the harness repeats the normalisation `t / sum(ts)` when sum(ts) != 1 and "
     "tabulates n -> int(ceil(n * t)) with the same Python float arithmetic; the model receives these integer tables "
-    "(the theorems hold for arbitrary tables); IEEE arithmetic and math.ceil are trusted",
+    "(the theorems hold for arbitrary tables); IEEE arithmetic and math.ceil are trusted. If the implementation's "
+    "result differs from the model's in this mode it is still accepted when the verified checker conv_check "
+    "(conv_check_correct: sound and complete for ValidConversion) accepts it and the counters are consistent, "
+    "because the property claims no category sizes for relative truncators",
 ]
 ASSUMPTIONS = [
     "source instances are non-empty, orders are non-empty tuples of non-empty classes of non-negative integer ids, "
@@ -287,7 +290,47 @@ def _cmp_tables(prefs_i, mult_i, prefs_m, mult_m):
     return None
 
 
+def oracle_requests(c, r):
+    """relative mode: additionally ask the verified checker (conv_check_correct) about the implementation's own
+    result, so that category SIZES other than the model's (the property claims none in this mode) do not alarm"""
+    reqs = [(c["op"], c["payload"])]
+    if c["op"] == "c17.from_ordinal" and c["payload"][5] and isinstance(r, list) and r[0] == 0:
+        ri = r[1]
+        reqs.append(("c17.conv_check", [c["payload"][2], ri[0], ri[1], ri[4]]))
+    return reqs
+
+
+def _relative_fallback(c, ri, mres):
+    """the implementation's result differs from the model's in the relative mode: accept it iff it is a valid
+    conversion (verified checker) with consistent counters"""
+    if len(mres) < 2 or mres[1] != 1:
+        return "not a valid conversion of the source (conv_check = false)"
+    src = c["payload"][2]
+    if ri[2] != sum(m for _, m in src):
+        return "num_voters %r, source has %r voters" % (ri[2], sum(m for _, m in src))
+    if ri[3] != len(ri[0]):
+        return "num_unique_preferences %r, %d ballots listed" % (ri[3], len(ri[0]))
+    if ri[5] != ri[4]:
+        return "len(categories_name) %r, num_categories %r" % (ri[5], ri[4])
+    if ri[6] != c["payload"][0]:
+        return "num_alternatives not copied"
+    if sorted((a, tuple(t)) for a, t in ri[7]) != sorted((a, tuple(t)) for a, t in c["payload"][1]):
+        return "alternatives_name not copied"
+    return None
+
+
 def judge(c, r, mres):
+    bad = _judge(c, r, mres)
+    if bad and c["op"] == "c17.from_ordinal" and c["payload"][5] and mres[0][0] == 0 \
+            and isinstance(r, list) and r[0] == 0 and sum(map(bool, c["payload"][3:6])) == 1:
+        bad2 = _relative_fallback(c, r[1], mres)
+        if bad2 is None:
+            return None
+        bad = dict(bad, reason=bad["reason"] + " | and: " + bad2, theorem="fo_output_valid / conv_check_correct")
+    return bad
+
+
+def _judge(c, r, mres):
     m = mres[0]
     if c["op"] == "c17.factorise":
         bad = _cmp_tables(r[0], r[1], m[0], m[1])
@@ -354,7 +397,13 @@ def stats(c, r, mres):
     kind = "exh" if c["tags"].get("exh") else ("rnd" if c["tags"].get("rnd") else "corpus")
     if m[0] == 1:
         return ["from_ordinal %s %s refused(%d)" % (kind, _mode(c), m[1])]
-    lab = ["from_ordinal %s %s %s" % (kind, _mode(c), "collapse" if _collapsed(c, m) else "no-collapse"),
+    if len(mres) > 1:
+        same = (r[0] == 0 and _cmp_tables(r[1][0], r[1][1], m[1][0], m[1][1]) is None)
+        extra = ["from_ordinal relative: %s, conv_check=%r" % ("same ballots as the model" if same else
+                                                               "ballots differ from the model", mres[1])]
+    else:
+        extra = []
+    lab = extra + ["from_ordinal %s %s %s" % (kind, _mode(c), "collapse" if _collapsed(c, m) else "no-collapse"),
            "from_ordinal orders=%d" % len(c["payload"][2]),
            "from_ordinal num_categories=%d" % m[1][4]]
     if any(b and b[-1] == [] for b in m[1][0]):
